@@ -790,6 +790,16 @@ def correspond(ctx, corr, model_ok):
         lists.append((es, [gen_forms(rng) for _ in es]))
         if es and rng.random() < 0.5 and sum(body_len(e) for e in es) < 5000:
             lists.append((es, [gen_forms(rng) for _ in es]))
+    # text fields given as str whose UTF-8 form is longer than their character count
+    for txt in ['\u00e9', 'a\u00e9\u00e9', 'donn\u00e9es/m\u00e9t\u00e9o', '\u65e5\u672c\u8a9e', 'x' * 250 + '\u00e9', '\u00e9' * 127,
+                'x' + '\u00e9' * 127, '\u00e9' * 128, '\U0001f600' * 63, '\U0001f600' * 64]:
+        b = txt.encode('utf-8')
+        for ctor in ('helper', 'class'):
+            fm = {'enc': 'bytes', 'str': True, 'ctor': ctor}
+            lists.append(([('route', [b])], [fm]))
+            lists.append(([('route', [b'a', b, b'z'])], [fm]))
+            lists.append(([('simple', b, b'p' + b)], [fm]))
+            lists.append(([('bearer', b), ('route', [b])], [fm, fm]))
     for _ in range(ctx.scale(350, 8000)):
         env = FR.Env()
         n = rng.choice([0, 1, 1, 2, 2, 3, 4, 6])
